@@ -34,6 +34,7 @@ var oracle = sugarcheck.NewOracle("pair", refine)
 func TestErrWrap(t *testing.T) {
 	sugarcheck.Run(t, vk.R, sugarcheck.Options{
 		Name:    "pair",
+		Oracle:  oracle,
 		Program: func(g *xsugar.G) *xsugar.Program { return xsugar.ErrWrapProgram(g, 10) },
 		// every generated use is an instance of "expr! / expr? / expr?:d on a call returning
 		// (values..., error)": a compile-time rejection means the operator is not usable there.
